@@ -21,8 +21,24 @@ def parse_comps(s):
     out = []
     for c in s.split(";"):
         d, b, a, e = c.split("|")
-        comp = Bf3Component(parse_desc(d), unhx(b), None, e == "1")
-        comp.actual_len = int(a)      # set directly: the constructor maps 0 to len(blob)
+        blob, a = unhx(b), int(a)
+        # through the constructor in the forms callers use: without a declared length (= the payload length), with it
+        # positionally, with keywords; a declared length the constructor cannot express (0 -> "use the payload length") is set
+        # on the attribute
+        form = (len(blob) + len(d)) % 3
+        if a == len(blob) and a and form == 0:
+            comp = Bf3Component(parse_desc(d), blob) if e != "1" else Bf3Component(parse_desc(d), blob, encrypt_by_session_key=True)
+        elif a and form == 1:
+            comp = Bf3Component(parse_desc(d), blob, a, e == "1")
+        elif a:
+            comp = Bf3Component(description=parse_desc(d), blob=blob, actual_len=a, encrypt_by_session_key=(e == "1"))
+        else:
+            comp = Bf3Component(parse_desc(d), blob, None, e == "1")
+        if a and comp.actual_len != a:
+            # the constructor did not keep the declared length: visible to every check that uses this component
+            pass
+        if not a:
+            comp.actual_len = a
         out.append(comp)
     return out
 
@@ -330,6 +346,15 @@ def prop_c05(chk, k, pos, b):
 def prop_c03(off, k, cs):
     """the writer's bytes = the independent serialiser's bytes; independent parser recovers the fields"""
     key, off, comps = unhx(k), int(off), parse_comps(cs)
+    e0 = Bf3File()
+    if e0.comments != {} or list(e0.components) != [] or e0.to_binary(off, key) != layout.serialize(key, off, []):
+        return "FAIL Bf3File() without arguments is not the empty file (no comments, no components)"
+    try:
+        if e0.dir_to_binary() != e0.dir_to_binary(0, bytes(16)) or \
+                Bf3File({}, parse_comps(cs)).dir_to_binary() != Bf3File({}, parse_comps(cs)).dir_to_binary(0, bytes(16)):
+            return "FAIL dir_to_binary() differs from dir_to_binary(0, default key)"
+    except OverflowError:
+        pass                                        # an entry beyond the 255-byte limit: the writer refuses below
     try:
         out = Bf3File({}, comps).to_binary(off, key)
     except Exception as e:
